@@ -193,6 +193,9 @@ def wrap_ufunc_productspace(name, n_in, n_out, doc):
                               for x in self.elem]
                     return self.elem.space.element(result)
                 else:
+                    if len(out) != len(self.elem):
+                        raise ValueError('`out` has {} parts, expected {}'
+                                         ''.format(len(out), len(self.elem)))
                     for x, out_x in zip(self.elem, out):
                         getattr(x.ufuncs, name)(out=out_x, **kwargs)
                     return out
@@ -219,6 +222,9 @@ def wrap_ufunc_productspace(name, n_in, n_out, doc):
                                   for x, x2p in zip(self.elem, x2)]
                         return self.elem.space.element(result)
                     else:
+                        if len(out) != len(self.elem):
+                            raise ValueError('`out` has {} parts, expected {}'
+                                             ''.format(len(out), len(self.elem)))
                         for x, x2p, outp in zip(self.elem, x2, out):
                             getattr(x.ufuncs, name)(x2p, out=outp, **kwargs)
                         return out
@@ -228,6 +234,9 @@ def wrap_ufunc_productspace(name, n_in, n_out, doc):
                                   for x in self.elem]
                         return self.elem.space.element(result)
                     else:
+                        if len(out) != len(self.elem):
+                            raise ValueError('`out` has {} parts, expected {}'
+                                             ''.format(len(out), len(self.elem)))
                         for x, outp in zip(self.elem, out):
                             getattr(x.ufuncs, name)(x2, out=outp, **kwargs)
                         return out
